@@ -443,7 +443,7 @@ package gostatsd
 //@ func (*MetricConsolidator).ReceiveMetricMap
 //@   floats real
 //@   requires mc != nil && mergeable(mm)
-//@   recvsite assumes [gostatsd.MetricMap] slotOK(val) && disjointC(val.Counters, mm.Counters) && disjointG(val.Gauges, mm.Gauges) && disjointT(val.Timers, mm.Timers) && disjointS(val.Sets, mm.Sets)
+//@   recvsite assumes [gostatsd.MetricMap] delivered ==> (slotOK(val) && disjointC(val.Counters, mm.Counters) && disjointG(val.Gauges, mm.Gauges) && disjointT(val.Timers, mm.Timers) && disjointS(val.Sets, mm.Sets))
 //@   sendsite requires [gostatsd.MetricMap] slotOK(val)
 //@   callsite Merge requires mmFrom == mm && calls(Merge) == 0
 //@   sendsite requires [gostatsd.MetricMap] ch == mc.maps && val == lastreceived(mc.maps) && calls(Merge) == 1
